@@ -1,7 +1,7 @@
 (* C03 model driver: runs the EXTRACTED Gallina iterators/tear (module Iter, from coq/C03/IterDefs.v)
    on the heap dumped by the C harness.
 
-   stdin : for every case the two lines   case <idx> <kind> k=<k>   and   shape root=<r> n=<n> id:l,r,p ...
+   stdin : for every case the two lines   case <idx> <kind> k=<k> s=<start node or 0>   and   shape root=<r> n=<n> id:l,r,p ...
    stdout: the same canonical lines the C harness prints (minus its '#...' and 'lower' lines),
            plus '#wf <0|1>' = the model's own decision whether the dumped heap is a parent-linked
            tree with distinct ids (hypothesis of the theorems).
@@ -88,7 +88,10 @@ let pr_tear tag (r : (id list * tstate) res) =
 
 let run_case case_line shape_line =
   let ctoks = String.split_on_char ' ' (String.trim case_line) in
-  let k = match List.rev ctoks with t :: _ -> int_of_string (after_eq t) | [] -> 0 in
+  let field pfx = List.fold_left (fun acc t ->
+      if String.length t > String.length pfx && String.sub t 0 (String.length pfx) = pfx then int_of_string (after_eq t) else acc) 0 ctoks in
+  let k = field "k=" in
+  let start = field "s=" in   (* node the tear-down starts at; 0 = NULL = the root *)
   let stoks = List.filter (fun s -> s <> "") (String.split_on_char ' ' (String.trim shape_line)) in
   let root, n, nodes =
     match stoks with
@@ -120,7 +123,7 @@ let run_case case_line shape_line =
   pr_step (tail rd fuel root); pr " ";
   pr_step (post_head rd fuel root); pr " ";
   pr_step (post_tail rd fuel root); pr "\n";
-  let st0 = { th = h; troot = root; tnext = None } in
+  let st0 = { th = h; troot = root; tnext = (if start = 0 then None else oid start) } in
   (match pr_tear "tear" (fortear fuel (nat_of_int k) st0) with
    | None -> ()
    | Some st ->
